@@ -24,6 +24,7 @@ RULE = (
     "(tiling, at most one empty block and only last, terminators end blocks with exactly the demanded edges, fresh "
     "proxies, labels on the block at their position, code/data classification) and one expression per symbolic "
     "operand with symbol, addend, size (x86) and attributes"
+    "; a corpus of texts that once tripped the assembler ('.zero 0' behind an unreachable label, empty strings) on every configuration"
 )
 ASSUMPTIONS = [
     "a text the assembler refuses with an AssemblerError (undefined symbol, unsupported expression, a LEB128 value in a block that stays code, ...) is outside 'supported assembly text'; any other exception is a violation",
